@@ -305,6 +305,7 @@ def _alarm(signum, frame):
 
 
 _PROP = None
+_SEQ = 0
 
 
 def _worker_init(prop_id):
@@ -314,8 +315,10 @@ def _worker_init(prop_id):
 
 
 def _worker_run(case):
+    global _SEQ
     prop = _PROP
-    out = {"obs": None, "oracle": [], "err": None}
+    _SEQ += 1
+    out = {"obs": None, "oracle": [], "err": None, "_pid": os.getpid(), "_seq": _SEQ}
     signal.alarm(prop.case_timeout)
     try:
         try:
@@ -363,6 +366,52 @@ def run_impl_many(prop, cases):
     ctx = mp.get_context("fork")
     with ctx.Pool(NPROC, initializer=_worker_init, initargs=(prop.id,)) as pool:
         return pool.map(_worker_run, cases, chunksize=max(1, len(cases) // (NPROC * 8)))
+
+
+def _fresh_seq(args):
+    pid, seq = args
+    _worker_init(pid)
+    return [_worker_run(c) for c in seq]
+
+
+def run_fresh(prop, seq):
+    """Run a sequence of cases, in order, in ONE brand-new interpreter (spawned, not forked: nothing the
+    parent has imported or cached is inherited; no state left over from other cases)."""
+    ctx = mp.get_context("spawn")
+    with ctx.Pool(1) as pool:
+        return pool.apply(_fresh_seq, ((prop.id, list(seq)),))
+
+
+def worker_history(cases, impl, i):
+    """The cases the same worker process had already run when it ran case i (in that order)."""
+    me = impl[i]
+    prev = [(impl[j].get("_seq", 0), j) for j in range(len(cases))
+            if j != i and impl[j].get("_pid") == me.get("_pid") and impl[j].get("_seq", 0) < me.get("_seq", 0)]
+    return [cases[j] for _, j in sorted(prev)]
+
+
+def shrink_history(prop, hist, last, fails_after, seconds=60):
+    """ddmin over the history: drop chunks while `last` still fails when run after the rest in a fresh process."""
+    deadline = time.time() + seconds
+    cur = list(hist)
+    n = 2
+    while len(cur) >= 1 and time.time() < deadline:
+        chunk = max(1, len(cur) // n)
+        reduced = False
+        for start in range(0, len(cur), chunk):
+            cand = cur[:start] + cur[start + chunk:]
+            if time.time() > deadline:
+                break
+            if fails_after(cand, last):
+                cur = cand
+                n = max(n - 1, 2)
+                reduced = True
+                break
+        if not reduced:
+            if chunk == 1:
+                break
+            n = min(len(cur), n * 2)
+    return cur
 
 
 def run_model_many(prop, cases):
@@ -542,6 +591,36 @@ def run_check(pid, tier, seed):
         if key in reported or len(reported) >= 3:
             continue
         reported.add(key)
+        # does the case fail on its own, in a process that has run nothing else?
+        alone = run_fresh(prop, [cases[i]])[-1]
+        alone_bad = [f for f in alone["oracle"] if prop.classify(cases[i], f) not in finding_ids]
+        if not alone_bad:
+            # history-dependent: the failure needs what the same process did before (state leaking
+            # between calls).  The replay is the shortest call history found that still produces it.
+            def fails_after(hist, last):
+                rr = run_fresh(prop, list(hist) + [last])[-1]
+                return any(prop.classify(last, f) not in finding_ids for f in rr["oracle"])
+            hist = worker_history(cases, impl, i)
+            if fails_after(hist, cases[i]):
+                hist = shrink_history(prop, hist, cases[i], fails_after)
+                rr = run_fresh(prop, hist + [cases[i]])[-1]
+                path = write_replay(pid, "violation", {
+                    "property": pid, "kind": "oracle-failure-history-dependent", "seed": seed, "tier": tier,
+                    "history": hist, "case": cases[i], "origin": origin[i],
+                    "failures": [f for f in rr["oracle"]] or [fail], "observed": rr["obs"],
+                    "observed_alone": alone["obs"],
+                    "note": "the case passes in a fresh process and fails after the listed history: state leaks between calls",
+                })
+                violations.append((path, ""))
+                continue
+            notes.append("a failure of clause %r was observed once but reproduces neither alone nor after its worker's history" % key)
+            path = write_replay(pid, "violation", {
+                "property": pid, "kind": "oracle-failure-not-reproducible", "seed": seed, "tier": tier,
+                "case": cases[i], "origin": origin[i], "failures": [fail], "observed": impl[i]["obs"],
+                "history_tried": len(hist),
+            })
+            violations.append((path, ""))
+            continue
         small = shrink(prop, cases[i], oracle_fails)
         _worker_init(pid)
         r = _worker_run(small)
@@ -708,8 +787,13 @@ def replay(pid, path):
         print(json.dumps(data, indent=1)[:4000])
         print("replay file names broken obligations only (no failing input)")
         return 1
-    _worker_init(pid)
-    r = _worker_run(case)
+    hist = data.get("history")
+    if hist:
+        print("history: %d earlier case(s) run first in the same fresh process" % len(hist))
+        r = run_fresh(prop, list(hist) + [case])[-1]
+    else:
+        _worker_init(pid)
+        r = _worker_run(case)
     m = run_model_many(prop, [prop.model_input(case, r["obs"])])[0] if os.path.exists(DRIVER) and prop.has_model(case) else None
     print("case:", canon(case))
     print("implementation:", canon(r["obs"]))
